@@ -108,7 +108,7 @@ def gen_table(rng, family, mol, opts):
                 em["default_label"] = opts["default_label"]
             if opts.get("vetoes", True) and rng.random() < 0.2:
                 em.update({"veto": pick(rng, ["always", "first:1", "random:0.5"]), "max_attempts": int(rng.integers(1, 4))})
-            kinds = opts.get("grand_kinds", ["E", "E", "D", "E*2", "D+E", "E+E", "D*2+E", "same", "D+E+E"])
+            kinds = opts.get("grand_kinds", ["E", "E", "D", "E*2", "D+E", "E+E", "D*2+E", "same", "D+E+E", "swap"])
             k = "E" if i == 0 else pick(rng, kinds)
             if k == "E":
                 entries.append({"name": name, "move": {**em, "id": f"e{i}"}, "criteria": crit()})
@@ -124,6 +124,8 @@ def gen_table(rng, family, mol, opts):
                 entries.append({"name": name, "move": {"t": "+", "parts": [{"t": "*", "part": d_move(rng, mol, opts), "n": 2}, em]}, "criteria": crit("grand") or "random:0.5"})
             elif k == "D+E+E":  # plain composite: the two exchange moves choose insertion/deletion independently
                 entries.append({"name": name, "move": {"t": "+", "parts": [d_move(rng, mol, opts), em, {**em, "bias": 1.0 - em["bias"]}]}, "criteria": crit("grand") or "random:0.5"})
+            elif k == "swap":  # number-conserving exchange: the first exchange move always deletes, the second always inserts
+                entries.append({"name": name, "move": {"t": "+", "parts": [d_move(rng, mol, opts), {**em, "bias": 0.0}, {**em, "bias": 1.0}]}, "criteria": crit("grand") or "random:0.5"})
             elif k == "same":
                 entries.append({"name": name, "move": {"t": "ref", "id": "e0"}, "criteria": crit()})
     for e in entries:
